@@ -2,6 +2,7 @@
 //! source (DESIGN 2.2). Decides C01, C02, C03, C04, C09.
 mod budget;
 mod c01;
+mod c02;
 mod c03;
 mod c04;
 mod c09;
@@ -24,6 +25,7 @@ fn check_one(prop: &str, sc: &Scenario, ex: &mut Exec) -> (Verdict, Option<Strin
     match prop {
         "C09" => c09::check(sc, ex),
         "C01" => c01::check(sc, ex),
+        "C02" => c02::check(sc, ex),
         "C03" => c03::check(sc, ex),
         "C04" => c04::check(sc, ex),
         other => (Verdict::Skip(format!("unknown property {}", other)), None),
